@@ -3,6 +3,7 @@
 -/
 import BorshModel.Lemmas.RoundtripMain
 import BorshModel.Lemmas.SpecRefineMain
+import BorshModel.Lemmas.SortLaws
 namespace Borsh
 
 /-- owned / borrowed / boxed / ref-counted / cell wrapping is invisible on the wire -/
@@ -70,6 +71,37 @@ example :
         [3, 0, 0, 0, 2, 0, 9, 0, 44, 1] &&
      (toVec (.seq .vecDeque (.int .u8)) (.deque [.int 1] [.int 2, .int 3])).okBytes [3, 0, 0, 0, 1, 2, 3] &&
      (toVec (.seq .vecDeque (.int .u8)) (.deque [.int 1, .int 2, .int 3] [])).okBytes [3, 0, 0, 0, 1, 2, 3]) = true := by
+  decide
+
+/-- a hash set encodes the same whatever order its (pairwise distinct) elements are iterated
+in: insertion history, capacity, hasher state are invisible on the wire -/
+theorem C03_hashSet_order_irrelevant (t : Ty) (vs ws : List Val)
+    (hd1 : distinctKeys id vs = true) (hd2 : distinctKeys id ws = true)
+    (hm : ∀ x, x ∈ vs ↔ x ∈ ws) :
+    ser (.set .hashSet t) (.list vs) = ser (.set .hashSet t) (.list ws) := by
+  simp only [ser, sortByKey_perm_invariant id vs ws hd1 hd2 hm]
+
+/-- the same for hash maps (entries with pairwise distinct keys) -/
+theorem C03_hashMap_order_irrelevant (kt vt : Ty) (es fs : List Val)
+    (hd1 : distinctKeys entryKey es = true) (hd2 : distinctKeys entryKey fs = true)
+    (hm : ∀ x, x ∈ es ↔ x ∈ fs) :
+    ser (.map .hashMap kt vt) (.list es) = ser (.map .hashMap kt vt) (.list fs) := by
+  simp only [ser, sortByKey_perm_invariant entryKey es fs hd1 hd2 hm]
+
+/-- a hash set and the ordered set with the same elements encode identically -/
+theorem C03_hashSet_eq_btreeSet (t : Ty) (vs ws : List Val)
+    (hd : distinctKeys id vs = true) (hs : strictlyAscending id ws = true)
+    (hm : ∀ x, x ∈ vs ↔ x ∈ ws) :
+    ser (.set .hashSet t) (.list vs) = ser (.set .btreeSet t) (.list ws) := by
+  have : sortByKey id vs = ws :=
+    sa_unique id _ _ (sortByKey_sa id vs hd) hs (fun x => by rw [mem_sortByKey]; exact hm x)
+  simp only [ser, this]
+
+/-- non-vacuity: two iteration orders of {1, 2, 3} -/
+example :
+    (distinctKeys id [.int 3, .int 1, .int 2] && distinctKeys id [.int 2, .int 3, .int 1] &&
+     (toVec (.set .hashSet (.int .u8)) (.list [.int 3, .int 1, .int 2])).okBytes [3, 0, 0, 0, 1, 2, 3] &&
+     (toVec (.set .hashSet (.int .u8)) (.list [.int 2, .int 3, .int 1])).okBytes [3, 0, 0, 0, 1, 2, 3]) = true := by
   decide
 
 end Borsh
